@@ -19,7 +19,7 @@ def gen(seed, index):
     njobs = r.choice([1, 1, 2, 3])
     jobs = []
     for j in range(njobs):
-        jobs.append({"kind": r.choice(["string", "file"]) if j == 0 else r.choice(["string", "string", "file"]),
+        jobs.append({"kind": r.choice(["string", "file", "string", "file", "raw"]) if j == 0 else r.choice(["string", "string", "file", "raw"]),
                      "mul": r.randint(2, 9), "add": r.randint(0, 50), "fname": "k%d.okl" % j})
     # at most one file kernel per scenario uses a.h (they share the header)
     seenfile = False
